@@ -580,3 +580,120 @@ def run_asym_session(role, asym, payloads, kw=None, raw_kw=None):
     _verif.set_sink(None)
     close_loop(loop)
     return out
+
+
+# ---------------------------------------------------------------------------
+# chosen ephemeral keys: the shared secret of a curve25519 exchange is made
+# to start with a zero octet, a set high bit, ... and the exchange hash is
+# recomputed from the bytes on the wire by the harness (RFC 8731 / RFC 4253:
+# K is the 32 octets read as an unsigned integer, encoded as an mpint)
+# ---------------------------------------------------------------------------
+
+def _find_x25519_pair(cls, rnd):
+    from cryptography.hazmat.primitives.asymmetric import x25519
+    from cryptography.hazmat.primitives.serialization import (
+        Encoding, PublicFormat)
+    a = x25519.X25519PrivateKey.from_private_bytes(
+        bytes(rnd.randrange(256) for _ in range(32)))
+    for _ in range(200000):
+        b = x25519.X25519PrivateKey.from_private_bytes(
+            bytes(rnd.randrange(256) for _ in range(32)))
+        sh = a.exchange(b.public_key())
+        ok = {'plain': 1 <= sh[0] < 0x80,
+              'highbit': sh[0] >= 0x80,
+              'zero_low': sh[0] == 0 and 1 <= sh[1] < 0x80,
+              'zero_high': sh[0] == 0 and sh[1] >= 0x80}[cls]
+        if ok:
+            return a, b, sh
+    raise RuntimeError('no key pair found for ' + cls)
+
+
+def _mpint(n):
+    if n == 0:
+        return (0).to_bytes(4, 'big')
+    b = n.to_bytes((n.bit_length() + 8) // 8, 'big')
+    return len(b).to_bytes(4, 'big') + b
+
+
+def _s(b):
+    return len(b).to_bytes(4, 'big') + b
+
+
+def chosen_ecdh_session(cls, seed, payloads=(b'abc', b'defgh')):
+    """A session with kex curve25519-sha256 whose two ephemeral keys are
+    chosen by the harness so that the shared secret is of class `cls`.
+    Returns (run_session result, findings)."""
+    import hashlib
+    import random
+    from cryptography.hazmat.primitives.asymmetric import x25519
+    rnd = random.Random(seed)
+    a, b, shared = _find_x25519_pair(cls, rnd)
+    queue = [a, b]
+    orig = x25519.X25519PrivateKey.generate
+
+    def fake():
+        return queue.pop(0) if queue else orig()
+
+    x25519.X25519PrivateKey.generate = staticmethod(fake)
+    try:
+        kw = dict(kex_algs=['curve25519-sha256'],
+                  encryption_algs=['aes128-ctr'], mac_algs=['hmac-sha2-256'],
+                  compression_algs=['none'])
+        r = run_session(list(payloads), client_kw=kw, server_kw=kw)
+    finally:
+        x25519.X25519PrivateKey.generate = orig
+    bad = []
+    if queue:
+        bad.append('machinery: chosen keys were not used')
+        return r, bad
+    # cleartext part of both directions
+    raw = {'cs': b'', 'sc': b''}
+    for ev in r['rec'].events:
+        if ev[0] == 'w':
+            raw[ev[1]] += ev[2]
+    ver, pkts = {}, {}
+    for d in raw:
+        line, _, rest = raw[d].partition(b'\r\n')
+        ver[d] = line
+        out = []
+        while len(rest) >= 5:
+            n = int.from_bytes(rest[:4], 'big')
+            pad = rest[4]
+            pl = rest[5:4 + n - pad]
+            out.append(pl)
+            rest = rest[4 + n:]
+            if pl[:1] == b'\x15':          # NEWKEYS: ciphertext follows
+                break
+        pkts[d] = out
+    try:
+        i_c = next(p for p in pkts['cs'] if p[0] == 20)
+        i_s = next(p for p in pkts['sc'] if p[0] == 20)
+        init = next(p for p in pkts['cs'] if p[0] == 30)
+        reply = next(p for p in pkts['sc'] if p[0] == 31)
+    except StopIteration:
+        bad.append(f'handshake did not get as far as the key exchange reply '
+                   f'(outcome {r["outcome"]})')
+        return r, bad
+    q_c = init[5:5 + int.from_bytes(init[1:5], 'big')]
+    n = int.from_bytes(reply[1:5], 'big')
+    k_s = reply[5:5 + n]
+    m = int.from_bytes(reply[5 + n:9 + n], 'big')
+    q_s = reply[9 + n:9 + n + m]
+    k = _mpint(int.from_bytes(shared, 'big'))
+    h = hashlib.sha256(_s(ver['cs']) + _s(ver['sc']) + _s(i_c) + _s(i_s) +
+                       _s(k_s) + _s(q_c) + _s(q_s) + k).digest()
+    logs = [ev[1] for ev in r['rec'].events if ev[0] == 'k']
+    if not logs:
+        bad.append(f'no keys were derived (outcome {r["outcome"]})')
+    for rec in logs[:2]:
+        if rec['k'] != k:
+            bad.append(f'side {rec["side"]}: K is encoded as '
+                       f'{rec["k"][:8].hex()}... ({len(rec["k"])} bytes); '
+                       f'RFC 4251 mpint of the shared secret '
+                       f'{shared[:3].hex()}... is {k[:8].hex()}... '
+                       f'({len(k)} bytes)')
+        if rec['h'] != h:
+            bad.append(f'side {rec["side"]}: exchange hash differs from the '
+                       f'hash of the bytes on the wire and the RFC encoding '
+                       f'of K (shared secret {shared[:3].hex()}...)')
+    return r, bad
